@@ -50,7 +50,7 @@ var c04EchoOctets = []int{0x00, 0x01, 0x07, 0x08, 0x0b, 0x0c, 0x0d, 0x1b, 0x1f, 
 func c04Run(ctx *core.Ctx) {
 	exLen, nSeeded, maxLen := 1, 30000, 16
 	if ctx.Thorough() {
-		exLen, nSeeded, maxLen = 2, 200000, 20
+		exLen, nSeeded, maxLen = 2, 500000, 22
 	}
 	if ctx.Part != "main" {
 		nSeeded /= 4
